@@ -255,6 +255,24 @@ def error_propagates(prov, fn, cb):
     return ef["returned_directly"]
 
 
+def value_cases(prov, fn, l, _depth=0):
+    """the ways local `l` gets its value: [(origin, dominating conditions of the defining site, (block, index))], looking
+    through plain moves (`x = move tmp` where tmp is assigned in several branches - the shape a spliced helper or a
+    block expression leaves behind)"""
+    out = []
+    for kind, db, di, x in prov.defs(fn).get(l, []):
+        if kind == "setdiscr" or x["dst"]["p"]:
+            continue
+        if kind == "assign" and x["rv"]["k"] == "use" and x["rv"]["op"].get("k") in ("copy", "move") and not x["rv"]["op"]["place"]["p"] and _depth < 6:
+            m = x["rv"]["op"]["place"]["l"]
+            if m > fn.arg_count and m != l and prov.defs(fn).get(m):
+                out.extend(value_cases(prov, fn, m, _depth + 1))
+                continue
+        val = prov.rvalue(fn, x["rv"], (db, di)) if kind == "assign" else prov.call_origin(fn, x, db)
+        out.append((val, dominating_conditions(prov, fn, db), (db, di)))
+    return out
+
+
 def guards(prov, fn):
     """every two-way decision of `fn` in one normal form, whatever its syntax (`if a == b`, `match a { K => .. , _ => .. }`,
     `if !p(x)`): [(block, pred, args, edge on which pred(args) holds, edge on which it does not)]
